@@ -3351,6 +3351,8 @@ bn_mod_inv_bin(bn_p bn, bn_p m, bn_mod_rd_data_p mod_rd_data) {
 
 	if (0 != bn_is_zero(bn) || 0 != bn_is_zero(m) || bn_cmp(bn, m) >= 0)
 		return (EINVAL);
+	if (0 == bn_is_odd(m)) /* The binary algorithm needs an odd modulus. */
+		return (EINVAL);
 	bits = ((4 + MAX(bn->digits, m->digits)) * BN_DIGIT_BITS);
 	BN_RET_ON_ERR(bn_init(&u, bits));
 	BN_RET_ON_ERR(bn_init(&v, bits));
@@ -3384,6 +3386,8 @@ bn_mod_inv_bin(bn_p bn, bn_p m, bn_mod_rd_data_p mod_rd_data) {
 			BN_RET_ON_ERR(bn_mod_sub(&v, &u, m, mod_rd_data));
 			BN_RET_ON_ERR(bn_mod_sub(&x2, &x1, m, mod_rd_data));
 		}
+		if (0 != bn_is_zero(&u) || 0 != bn_is_zero(&v))
+			return (EINVAL); /* gcd(bn, m) != 1: no inverse. */
 	}
 
 	if (0 != bn_is_one(&u)) {
